@@ -1,6 +1,9 @@
 package seq
 
-import "reflect"
+import (
+	"reflect"
+	"unicode/utf8"
+)
 
 // helper for rewrite for range statement
 
@@ -18,7 +21,7 @@ func NewIntegerIter(n int) Iterator[pair[int, any]] {
 }
 
 func NewStringIter(str string) Iterator[pair[int, rune]] {
-	return &stringIter{str: []rune(str), idx: -1}
+	return &stringIter{str: str}
 }
 
 func NewSliceIter[V any](slice []V) Iterator[pair[int, V]] {
@@ -50,17 +53,23 @@ func (i *integerIter) Current() pair[int, any] {
 }
 
 type stringIter struct {
-	str []rune
-	idx int
+	str  string
+	idx  int  // byte offset of the current rune
+	next int  // byte offset of the next rune
+	cur  rune // current rune
 }
 
 func (s *stringIter) MoveNext() bool {
-	s.idx++
-	return s.idx < len(s.str)
+	if s.next >= len(s.str) {
+		return false
+	}
+	r, w := utf8.DecodeRuneInString(s.str[s.next:])
+	s.idx, s.cur, s.next = s.next, r, s.next+w
+	return true
 }
 
 func (s *stringIter) Current() pair[int, rune] {
-	return pair[int, rune]{Key: s.idx, Val: s.str[s.idx]}
+	return pair[int, rune]{Key: s.idx, Val: s.cur}
 }
 
 type sliceIter[V any] struct {
